@@ -13,6 +13,7 @@ error for serde). Composed with C01 this is the deserialisation clause of C15 in
 import ShapeVerif.Lemmas.Admits
 import ShapeVerif.Lemmas.Sorted
 import ShapeVerif.Model.Derive
+import ShapeVerif.Props.C01
 namespace ShapeVerif
 open Shape
 
@@ -53,11 +54,12 @@ theorem docNoDupM_mem : ∀ {ms : List (String × Doc)}, docNoDupM ms = true →
     · exact docNoDupM_mem h.2 x hx
 
 theorem admits_deserializes_aux (n : Nat) : ∀ s : Shape, sizeOf s ≤ n → s.wf = true → hasOneOf s = false →
+    hasEmptyObject s = false →
     noNullMembers s = true → ∀ d, docNoDup d = true → admits s d = true → serdeAccepts s d = true := by
   induction n with
   | zero => intro s h; cases s <;> simp at h
   | succ n ih =>
-    intro s hn hw hno hnn d hdd h
+    intro s hn hw hno hne hnn d hdd h
     cases s with
     | null => simpa [serdeAccepts, admits] using h
     | bool o => cases d <;> simp_all [serdeAccepts, admits]
@@ -68,65 +70,71 @@ theorem admits_deserializes_aux (n : Nat) : ∀ s : Shape, sizeOf s ≤ n → s.
       simp only [Shape.wf] at hw
       simp only [hasOneOf] at hno
       simp only [noNullMembers] at hnn
+      simp only [hasEmptyObject] at hne
       rcases admits_array_cases h with ⟨rfl, ho⟩ | ⟨xs, rfl, hxs⟩
       · simp [serdeAccepts, ho]
       · simp only [serdeAccepts]
         rw [List.all_eq_true] at hxs ⊢
         simp only [docNoDup] at hdd
         intro x hx
-        exact ih t (by simp at hn; omega) hw hno hnn x (docNoDupL_mem hdd x hx) (hxs x hx)
+        exact ih t (by simp at hn; omega) hw hno hne hnn x (docNoDupL_mem hdd x hx) (hxs x hx)
     | tuple es o =>
       simp only [Shape.wf] at hw
       simp only [hasOneOf] at hno
       simp only [noNullMembers] at hnn
+      simp only [hasEmptyObject] at hne
       rcases admits_tuple_cases h with ⟨rfl, ho⟩ | ⟨xs, rfl, hxs⟩
       · simp [serdeAccepts, ho]
       · simp only [serdeAccepts]
         simp only [docNoDup] at hdd
         have : ∀ (es : List Shape) (xs : List Doc), (∀ e ∈ es, sizeOf e ≤ n) → wfList es = true →
-            hasOneOfList es = false → noNullMembersL es = true → docNoDupL xs = true →
+            hasOneOfList es = false → hasEmptyObjectList es = false → noNullMembersL es = true →
+            docNoDupL xs = true →
             admitsZip es xs = true → serdeZip es xs = true := by
           intro es
           induction es with
-          | nil => intro xs _ _ _ _ _ hz; cases xs <;> simp_all [admitsZip, serdeZip]
+          | nil => intro xs _ _ _ _ _ _ hz; cases xs <;> simp_all [admitsZip, serdeZip]
           | cons e es ihl =>
-            intro xs hs hw' ho' hn' hd' hz
+            intro xs hs hw' ho' he' hn' hd' hz
             cases xs with
             | nil => simp [admitsZip] at hz
             | cons x xs =>
               simp [wfList] at hw'
               simp [hasOneOfList] at ho'
+              simp [hasEmptyObjectList] at he'
               simp [noNullMembersL] at hn'
               simp [docNoDupL] at hd'
               simp [admitsZip] at hz
               simp only [serdeZip, Bool.and_eq_true]
-              exact ⟨ih e (hs e (by simp)) hw'.1 ho'.1 hn'.1 x hd'.1 hz.1,
-                ihl xs (fun e' he' => hs e' (by simp [he'])) hw'.2 ho'.2 hn'.2 hd'.2 hz.2⟩
-        exact this es xs (fun e he => by have := List.sizeOf_lt_of_mem he; simp at hn; omega) hw hno hnn hdd hxs
+              exact ⟨ih e (hs e (by simp)) hw'.1 ho'.1 he'.1 hn'.1 x hd'.1 hz.1,
+                ihl xs (fun e' hm => hs e' (by simp [hm])) hw'.2 ho'.2 he'.2 hn'.2 hd'.2 hz.2⟩
+        exact this es xs (fun e he => by have := List.sizeOf_lt_of_mem he; simp at hn; omega) hw hno hne hnn hdd hxs
     | object c o =>
       simp only [Shape.wf, Bool.and_eq_true] at hw
       simp only [hasOneOf] at hno
       simp only [noNullMembers] at hnn
+      simp only [hasEmptyObject, Bool.or_eq_false_iff] at hne
       rcases admits_object_cases h with ⟨rfl, ho⟩ | ⟨ms, rfl, hms, habs⟩
       · simp [serdeAccepts, ho]
-      · simp only [serdeAccepts]
+      · simp only [serdeAccepts, hne.1, Bool.not_false, Bool.true_and]
         simp only [docNoDup, Bool.and_eq_true] at hdd
         rw [List.all_eq_true] at hms
         rw [absentOk_iff] at habs
         -- every field of the struct, one by one (suffixes of c, looked up in the whole of c)
-        have : ∀ (c' : Members), (∀ kv ∈ c', kv ∈ c) → hasOneOfMembers c' = false → noNullMembersM c' = true →
-            serdeFields c' ms = true := by
+        have : ∀ (c' : Members), (∀ kv ∈ c', kv ∈ c) → hasOneOfMembers c' = false →
+            hasEmptyObjectMembers c' = false → noNullMembersM c' = true → serdeFields c' ms = true := by
           intro c'
           induction c' with
-          | nil => intro _ _ _; rfl
+          | nil => intro _ _ _ _; rfl
           | cons kv c' ihc =>
             obtain ⟨k, s⟩ := kv
-            intro hsub ho' hn'
+            intro hsub ho' he' hn'
             simp [hasOneOfMembers] at ho'
+            simp [hasEmptyObjectMembers] at he'
             simp [noNullMembersM] at hn'
             have hks : (k, s) ∈ c := hsub (k, s) (by simp)
             simp only [serdeFields, Bool.and_eq_true]
-            refine ⟨?_, ihc (fun kv hkv => hsub kv (by simp [hkv])) ho'.2 hn'.2⟩
+            refine ⟨?_, ihc (fun kv hkv => hsub kv (by simp [hkv])) ho'.2 he'.2 hn'.2⟩
             cases hg : getDocMember k ms with
             | some v =>
               simp only
@@ -136,7 +144,7 @@ theorem admits_deserializes_aux (n : Nat) : ∀ s : Shape, sizeOf s ≤ n → s.
               rw [admitsKey_of_mem hw.1 hks] at hadm
               have hsz : sizeOf s ≤ n := by
                 have := sizeOf_lt_of_mem_members hks; simp at hn this; omega
-              exact ih s hsz (wfMembers_mem hw.2 _ hks) ho'.1 hn'.1.2 v (docNoDupM_mem hdd.2 (k, v) hkv) hadm
+              exact ih s hsz (wfMembers_mem hw.2 _ hks) ho'.1 he'.1 hn'.1.2 v (docNoDupM_mem hdd.2 (k, v) hkv) hadm
             | none =>
               simp only [Bool.and_eq_true, Bool.not_eq_true']
               have hnm := getDocMember_none hg
@@ -145,14 +153,43 @@ theorem admits_deserializes_aux (n : Nat) : ∀ s : Shape, sizeOf s ≤ n → s.
               · refine ⟨?_, hn'.1.1⟩
                 -- s admits null, is not Null and contains no OneOf: it carries the optional flag
                 cases s <;> simp_all [admits, isOptional, isNull, hasOneOf]
-        exact this c (fun kv h => h) hno hnn
+        exact this c (fun kv h => h) hno hne.2 hnn
 
 /-- **C15, deserialisation clause in the model**: every admitted document without repeated member
 names is accepted by serde for the generated type, for OneOf-free shapes without Null-typed members -/
 theorem admits_deserializes (s : Shape) (d : Doc) (hw : s.wf = true) (hno : hasOneOf s = false)
-    (hnn : noNullMembers s = true) (hdd : docNoDup d = true) (h : admits s d = true) :
-    serdeAccepts s d = true :=
-  admits_deserializes_aux (sizeOf s) s (Nat.le_refl _) hw hno hnn d hdd h
+    (hne : hasEmptyObject s = false) (hnn : noNullMembers s = true) (hdd : docNoDup d = true)
+    (h : admits s d = true) : serdeAccepts s d = true :=
+  admits_deserializes_aux (sizeOf s) s (Nat.le_refl _) hw hno hne hnn d hdd h
+
+/-- the same for the root item, which is the bare struct/enum: roots that are not an optional Object
+(known finding D22) -/
+theorem admits_deserializes_root (s : Shape) (d : Doc) (hw : s.wf = true) (hno : hasOneOf s = false)
+    (hne : hasEmptyObject s = false) (hnn : noNullMembers s = true) (hr : rootOptionalNamed s = false)
+    (hdd : docNoDup d = true) (h : admits s d = true) : rootAccepts s d = true := by
+  simp only [rootAccepts, hr, Bool.false_eq_true, if_false]
+  exact admits_deserializes s d hw hno hne hnn hdd h
+
+/-- known finding D19: an empty object is a unit struct, which does not read `{}` -/
+theorem empty_object_rejects :
+    admits (.object [] false) (.obj []) = true ∧ serdeAccepts (.object [] false) (.obj []) = false := by decide
+
+/-- known finding D22: the root item of an optional object does not read `null` -/
+theorem root_optional_rejects_null :
+    admits (.object [("a", .number false)] true) .null = true ∧
+    rootAccepts (.object [("a", .number false)] true) .null = false := by decide
+
+/-- **C15 composed with C01**: for every non-empty history of documents (conflict-free: D3), the shape
+inferred from them exists and, when it lies in the fragment, every source deserialises into the root
+type generated for it. -/
+theorem sources_deserialize (h : List Doc) (hne : h ≠ [])
+    (hok : ∀ d ∈ h, ∃ s, inferDoc d = .ok s) (hcf : ∀ d ∈ h, conflictFree d = true)
+    (hdd : ∀ d ∈ h, docNoDup d = true) :
+    ∃ s, fromSourcesDoc h = .ok s ∧
+      (hasOneOf s = false → hasEmptyObject s = false → noNullMembers s = true →
+        rootOptionalNamed s = false → ∀ d ∈ h, rootAccepts s d = true) := by
+  obtain ⟨s, hs, hw, hadm⟩ := sources_sound h hne hok hcf
+  exact ⟨s, hs, fun h1 h2 h3 h4 d hd => admits_deserializes_root s d hw h1 h2 h3 h4 (hdd d hd) (hadm d hd)⟩
 
 /-- known finding D18: no bare document deserialises into the enum generated for a `OneOf` -/
 theorem oneOf_rejects_sources (vs : List Shape) (d : Doc) (_hd : d.isNull = false) :
